@@ -306,7 +306,7 @@ def common_values(prog, ax="Time"):
         if not isinstance(eq.args[0], Rat):
             continue
         for a in eq.args[0].atoms(deep=False):
-            if "intersect1d" in a.key and (a.func == "getitem" or a.func.startswith("elem#")) and isinstance(a.args[0], Rat):
+            if "intersect1d" in a.key and (a.func == "getitem" or a.func.startswith("elem#") or a.func == "elem") and isinstance(a.args[0], Rat):
                 return a.args[0], ev
     return None, ev
 
